@@ -185,6 +185,36 @@ theorem required_arg_converts (P : Prog) (n hn idx : Nat) (args : List Str) (sec
 example : (getRequiredArg Demo.ext Demo.prog 0 0 0 .int [b "12", b "x"] []).2 = .ok (b "12") [b "x"] ∧
           (getRequiredArg Demo.ext Demo.prog 0 0 0 .int [b "1x"] []).2 = .convInt (b "1x") [] := by decide
 
+/-- `k` calls of `GetRequiredArg`, each on the list the previous one handed back: the values taken, the list left,
+the counter reached (`none` as soon as one call finds nothing to take) -/
+def takeRequired (P : Prog) (n hn : Nat) : Nat → Nat → List Str → Option (List Str × List Str × Nat)
+  | 0, idx, args => some ([], args, idx)
+  | k + 1, idx, args =>
+    match getRequiredArg ext P n hn idx .str args [] with
+    | (idx', .ok v rest) =>
+      match takeRequired P n hn k idx' rest with
+      | some (vs, r, i) => some (v :: vs, r, i)
+      | none => none
+    | _ => none
+
+/-- **Chained `GetRequiredArg` calls conserve the list**: `k` calls on a list with at least `k` elements return its
+first `k` elements, in order, leave exactly the rest, and advance the object's argument counter by `k`; with fewer
+elements the `(k)`-th call at the latest reports the missing argument. -/
+theorem takeRequired_spec (P : Prog) (n hn : Nat) (k idx : Nat) (args : List Str) :
+    takeRequired ext P n hn k idx args =
+      if k ≤ args.length then some (args.take k, args.drop k, idx + k) else none := by
+  induction k generalizing idx args with
+  | zero => simp [takeRequired]
+  | succ k ih =>
+    cases args with
+    | nil => simp [takeRequired, getRequiredArg]
+    | cons a r =>
+      simp only [takeRequired, getRequiredArg, ih, List.length_cons, Nat.add_le_add_iff_right]
+      split <;> simp_all <;> omega
+
+example : takeRequired Demo.ext Demo.prog 0 0 2 0 [b "a", b "b", b "c"] = some ([b "a", b "b"], [b "c"], 2) := by decide
+
+
 /-! Non-vacuity: a failing parse. -/
 example : (parseUser Demo.ext Demo.prog [b "--num", b "x"]).remaining = none ∧
           (parseUser Demo.ext Demo.prog [b "--num", b "x"]).err = some (.parse (.convInt (b "num") (b "x"))) := by decide
